@@ -140,6 +140,11 @@ struct Run<'a> {
     boundaries: Vec<Boundary>,
     sticky_reported: bool,
     renders_seen: usize,
+    /// abort handle -> (labels of its own tasks, labels of tasks of commands nested in it)
+    coverage: BTreeMap<u32, (BTreeSet<u32>, BTreeSet<u32>)>,
+    order_checked: usize,
+    aborted_by: BTreeMap<u32, Option<(u64, u64)>>,
+    nested_after_abort_reported: bool,
     reap_slack: bool,
     defer_drops: bool,
     bridge_dups: bool,
@@ -154,6 +159,45 @@ enum StepEnd {
 }
 
 impl Run<'_> {
+    /// "After a command is aborted ... the cancelled work never produces another effect or event":
+    /// read off the order in which the real tasks ran (the reference polls tasks in an order of its own
+    /// and sets such runs aside). The task that issued the abort runs on to its next await point.
+    fn check_outputs_after_abort(&mut self, si: usize, cov: &mut Cov) -> Result<(), Violation> {
+        use super::build::Order;
+        let log = super::build::order_log_snapshot();
+        let from = self.order_checked.min(log.len());
+        for e in &log[from..] {
+            match e {
+                Order::Abort { h, by } => {
+                    self.aborted_by.entry(*h).or_insert(*by);
+                }
+                Order::Out { label, at, what } => {
+                    for (h, by) in &self.aborted_by {
+                        let Some((own, nested)) = self.coverage.get(h) else { continue };
+                        if *by == Some(*at) {
+                            cov.bump("probe:aborting_task_ran_on_to_its_next_await");
+                            continue;
+                        }
+                        if own.contains(label) {
+                            cov.bump("probe:output_after_abort_seen");
+                            if self.id == "C06" {
+                                return Err(viol(self.id, "output_after_abort:own_task", format!("step {si} on {:?}: task {label} of the command aborted through handle {h} produced a {what} after the abort (it was polled again although its command had been aborted)", self.sel)));
+                            }
+                        } else if nested.contains(label) {
+                            cov.bump("probe:output_after_abort_seen_nested");
+                            if self.id == "C06" && !self.nested_after_abort_reported {
+                                self.nested_after_abort_reported = true;
+                                cov.tolerate(viol(self.id, "output_after_abort:nested_command", format!("step {si} on {:?}: task {label} of a command hosted inside the command aborted through handle {h} produced a {what} after the abort (the tasks of a nested command run on until its settling pass ends)", self.sel)))?;
+                            }
+                        }
+                    }
+                }
+            }
+        }
+        self.order_checked = log.len();
+        Ok(())
+    }
+
     /// every surviving candidate follows the implementation where it keeps a stuck `then_stream`
     /// chain which the property wants discarded: the known finding S12, reported once per run
     fn report_sticky(&mut self, id: &'static str, si: usize, sel: HostSel, cov: &mut Cov, what: &str) -> Result<(), Violation> {
@@ -358,6 +402,23 @@ impl Run<'_> {
                         }
                     }
                 }
+                Action::BadItem { site, arg } => {
+                    let key = (*site, *arg);
+                    match self.host.bad_item(key) {
+                        None => {
+                            cov.bump("skipped_action");
+                            continue;
+                        }
+                        Some(true) => {
+                            // rejected, nothing else happens: the stream stays as it was
+                            self.faults += 1;
+                            cov.bump("fault:bridge_undecodable_stream_item");
+                        }
+                        Some(false) => {
+                            return Err(viol(id, "undecodable_item_not_rejected", format!("step {si}: bytes that do not decode were not rejected as such for the stream {key:?}")));
+                        }
+                    }
+                }
                 Action::DropRoot(rid) => {
                     self.faults += 1;
                     cov.bump("fault:drop_cmd");
@@ -384,6 +445,7 @@ impl Run<'_> {
             self.host.settle()
         };
         cov.bump("sim_steps");
+        self.check_outputs_after_abort(si, cov)?;
         self.renders_seen += obs.effects.iter().filter(|e| e.op == super::model::OpName::Render).count();
         if let Some(e) = self.host.take_errors().into_iter().next() {
             return Err(viol(id, "bridge_invariant", format!("step {si}: {e}")));
@@ -592,6 +654,13 @@ pub fn run_scenario_on(scn: &Scenario, sel: HostSel, ck: &Checks, cov: &mut Cov)
     m0.g.legacy_drops = scn.legacy_drops;
     let tokens0 = super::ops::live_tokens();
     let ctrl = if scn.buggify { Some(install_buggify(scn.hash_seed)) } else { None };
+    let mut coverage = BTreeMap::new();
+    for a in scn.steps.iter().flatten() {
+        if let Action::Event(Event::Run(c)) = a {
+            coverage.extend(c.abort_coverage());
+        }
+    }
+    super::build::order_log_reset();
     let mut run = Run {
         id,
         ck,
@@ -610,6 +679,10 @@ pub fn run_scenario_on(scn: &Scenario, sel: HostSel, ck: &Checks, cov: &mut Cov)
         boundaries: vec![],
         sticky_reported: false,
         renders_seen: 0,
+        coverage,
+        order_checked: 0,
+        aborted_by: BTreeMap::new(),
+        nested_after_abort_reported: false,
         reap_slack: false,
         defer_drops: scn.defer_drops,
         bridge_dups: scn.bridge_dups,
